@@ -434,6 +434,12 @@ func decimalValueFromString(numStr string, fracDigRequired uint8) (n Number, err
 	if err != nil {
 		return n, fmt.Errorf("%s is not a valid decimal number: %s", numStr, err)
 	}
+	// A decimal literal is a sign, digits and, after a point, more digits:
+	// what was cut up and padded above converts for other texts as well
+	// ("." is 0, ".-5" is -0.05).
+	if !decimalLiteral.MatchString(numStr) {
+		return n, fmt.Errorf("%s is not a valid decimal number", numStr)
+	}
 
 	negative := false
 	if v < 0 {
@@ -459,6 +465,10 @@ func ParseRangesInt(s string) (YangRange, error) {
 func ParseRangesDecimal(s string, fracDigRequired uint8) (YangRange, error) {
 	return YangRange{}.parseChildRanges(s, true, fracDigRequired)
 }
+
+// decimalLiteral matches the texts ParseDecimal reads: an optional sign, digits
+// and optionally a point followed by digits.
+var decimalLiteral = regexp.MustCompile(`^[+-]?[0-9]+(\.[0-9]+)?$`)
 
 // rangeBoundary matches a boundary of a range or length restriction other than
 // min and max: an integer-value or a decimal-value of RFC 7950 section 14 (no
